@@ -809,6 +809,63 @@ def result_api(ctx: Ctx) -> None:
             flush(app)
 
 
+def declared_wait_beside_a_poll(ctx: Ctx) -> None:
+    """in-memory: a task thread declares its wait (`waiting_for_results`) while the runner loop asks what is blocking
+    (`get_blocking_invocations`) - on a wait graph that exists and is EMPTY at that moment (everything declared so far has been
+    released).  One thread is paused after each source line of the orchestrator's wait-graph code while the other runs to completion,
+    both ways round.  Afterwards the declaration stands: the awaited invocation is reported."""
+    from pynenc.invocation.status import InvocationStatus as S
+    from pynenc.orchestrator.mem_orchestrator import MemBlockingControl, MemOrchestrator
+
+    from harness.sched_line import LineSched
+    from harness.sched_sql import PrefixChooser
+
+    sched = LineSched(line_targets=[MemBlockingControl, MemOrchestrator.__dict__["blocking_control"], MemOrchestrator.waiting_for_results if "waiting_for_results" in MemOrchestrator.__dict__ else MemBlockingControl.waiting_for_results],
+                      lock_modules=["pynenc.orchestrator.mem_orchestrator"], max_steps=20000).install()
+    n = 0
+    try:
+        def run_one(chooser):
+            app = make_app("mem", ctx.tmp, app_id=f"c09dw{ctx.rng.randrange(10**7)}")
+            t = app.task(T.add)
+            o = app.orchestrator
+            p0, c0, p1, c1 = t(1, 0), t(2, 0), t(3, 0), t(4, 0)
+            for p in (p0, p1):
+                inject_status(app, p.invocation_id, S.RUNNING, "rA", 0)
+            # warm-up: the graph has been used and is empty again
+            o.waiting_for_results(p0.invocation_id, [c0.invocation_id])
+            o.release_waiters(c0.invocation_id)
+            out: dict = {}
+
+            def declare() -> None:
+                o.waiting_for_results(p1.invocation_id, [c1.invocation_id])
+
+            def poll() -> None:
+                out["during"] = list(o.get_blocking_invocations(10))
+
+            run = sched.run([declare, poll], chooser)
+            run.meta = (c1.invocation_id, list(o.get_blocking_invocations(10)), out)  # type: ignore[attr-defined]
+            return run
+
+        n0 = len([c for c in run_one(PrefixChooser([0] * 5000)).choices if c == 0])
+        n1 = len([c for c in run_one(PrefixChooser([1] * 5000)).choices if c == 1])
+        for plan in [[0] * k + [1] * 5000 for k in range(n0 + 1)] + [[1] * k + [0] * 5000 for k in range(n1 + 1)]:
+            run = run_one(PrefixChooser(plan))
+            n += 1
+            ctx.count()
+            ctx.distinct(("mem", "declared-wait-beside-a-poll", tuple(run.choices[:60])))
+            c1_id, after, out = run.meta  # type: ignore[attr-defined]
+            rep = {"kind": "declared-wait-beside-a-poll", "backend": "mem", "schedule": run.choices[:80]}
+            if run.aborted or any(e is not None for e in run.errors):
+                ctx.report("declared-wait-beside-a-poll:error[mem]", f"[mem] aborted={run.aborted} errors={run.errors}", rep)
+            elif after != [c1_id]:
+                ctx.report("declared-wait-lost[mem]", f"[mem] a task thread declares that it waits for C1 while the runner loop asks what is blocking (the wait graph existed and was empty): afterwards "
+                                                       f"get_blocking_invocations(10) returns {['C1' if x == c1_id else x[:8] for x in after]} instead of ['C1'] - the declaration went into a graph nobody reads "
+                                                       f"(schedule {run.choices[:40]})", rep)
+    finally:
+        sched.uninstall()
+    ctx.notes["declared_wait_beside_a_poll_schedules"] = n
+
+
 def slot_count_vs_new_waiter(ctx: Ctx) -> None:
     """the runner loop counts its free slots (`_reclaim_available_slots`) while a task thread enters its first wait
     (`_waiting_for_results` marks it as waiting): whenever the loop looks at the waiting marks - element by element, if it walks them -
@@ -880,6 +937,7 @@ def run(ctx: Ctx) -> None:
         part_b_poll(ctx, drv)
         result_api(ctx)
         slot_count_vs_new_waiter(ctx)
+        declared_wait_beside_a_poll(ctx)
         part_b(ctx, drv)
     finally:
         drv.close()
